@@ -107,6 +107,11 @@ Del(op, e) ==      \* clunk, remove: the entry dies and the server unbinds the f
   /\ UNCHANGED nextfid
   /\ \E out \in {"ok", "fail"} :
        last' = Rec(op, e.fid, <<>>, "", Call(op, e.fid, NOFID, <<>>, ""), out, out = "ok", 0, FALSE)
+\* ... unless the request never reached the server (the session call failed without a reply, e.g. the connection
+\* dropped and came back): nothing has happened, the entry is as live as before and the caller may try again
+Lost(op, e) ==
+  /\ UNCHANGED <<ents, nextfid, sb>>
+  /\ last' = Rec(op, e.fid, <<>>, "", Call(op, e.fid, NOFID, <<>>, ""), "lost", FALSE, 0, FALSE)
 
 Create(e, nm) ==
   IF nm \in {"", ".", ".."} \/ ~e.dir THEN
@@ -127,6 +132,7 @@ Next ==
   \/ \E e \in ents : Open(e)
   \/ \E e \in ents : Del("clunk", e)
   \/ \E e \in ents : Del("remove", e)
+  \/ \E e \in ents : Lost("clunk", e) \/ Lost("remove", e)
   \/ \E e \in ents, nm \in CreateNames : ~e.open /\ Create(e, nm)   \* (9P forbids create through an open fid)
 
 Spec == Init /\ [][Next]_vars
